@@ -10,9 +10,58 @@ open Value
 
 variable {o : Opts} {size acc : Nat} {doc : Value} {op : Op}
 
+/-- a pointer outside RFC 6901: the operation is outside the domain (remove under
+AllowMissingPathOnRemove) or fails (for move / copy with the failure of the source half, which is
+evaluated first) — it never succeeds -/
 theorem applyOp_badPointer (hp : parsePointer op.path = none) :
-    applyOp o size acc doc op = .unspec := by
+    applyOp o size acc doc op = .unspec ∨ ∃ c, applyOp o size acc doc op = .fail c := by
   simp only [applyOp, hp]
+  split
+  · exact .inl rfl
+  · cases op.kind with
+    | move =>
+      simp only
+      cases parsePointer op.frm with
+      | none => exact .inr ⟨_, rfl⟩
+      | some frm =>
+        cases frm with
+        | nil => exact .inr ⟨_, rfl⟩
+        | cons t ts =>
+          simp only
+          cases atParent o (removeIn o) doc (t :: ts) with
+          | ok a => exact .inr ⟨_, rfl⟩
+          | fail c => exact .inr ⟨_, rfl⟩
+          | unspec => exact .inl rfl
+    | copy =>
+      simp only
+      cases parsePointer op.frm with
+      | none => exact .inr ⟨_, rfl⟩
+      | some frm =>
+        cases frm with
+        | nil => exact .inr ⟨_, rfl⟩
+        | cons t ts =>
+          simp only
+          cases atParent o (getIn o false) doc (t :: ts) with
+          | ok a => exact .inr ⟨_, rfl⟩
+          | fail c => exact .inr ⟨_, rfl⟩
+          | unspec => exact .inl rfl
+    | add => exact .inr ⟨_, rfl⟩
+    | remove => exact .inr ⟨_, rfl⟩
+    | replace => exact .inr ⟨_, rfl⟩
+    | test => exact .inr ⟨_, rfl⟩
+
+theorem applyOp_badPointer_ne_ok (hp : parsePointer op.path = none) (r : Value × Nat) :
+    applyOp o size acc doc op ≠ .ok r := by
+  intro h
+  rcases applyOp_badPointer (o := o) (size := size) (acc := acc) (doc := doc) hp with h' | ⟨c, h'⟩ <;>
+    rw [h'] at h <;> cases h
+
+/-- an operation that succeeds has a well-formed `path` -/
+theorem applyOp_ok_pointer {d' : Value} {acc' : Nat} (h : applyOp o size acc doc op = .ok (d', acc')) :
+    ∃ path, parsePointer op.path = some path := by
+  cases hp : parsePointer op.path with
+  | none => exact absurd h (applyOp_badPointer_ne_ok hp _)
+  | some path => exact ⟨path, rfl⟩
 
 theorem applyOp_add_none {path : List Bytes} (hp : parsePointer op.path = some path)
     (hk : op.kind = .add) (hv : op.value = none) : applyOp o size acc doc op = .unspec := by
@@ -79,7 +128,7 @@ theorem applyOp_replace_cons {v : Value} {t : Bytes} {ts : List Bytes}
 
 theorem applyOp_move_badFrom {path : List Bytes} (hp : parsePointer op.path = some path)
     (hk : op.kind = .move) (hf : parsePointer op.frm = none) :
-    applyOp o size acc doc op = .unspec := by
+    applyOp o size acc doc op = .fail .parentUnreachable := by
   simp only [applyOp, hp, hk, hf]
 
 theorem applyOp_move_fromRoot {path : List Bytes} (hp : parsePointer op.path = some path)
@@ -108,7 +157,7 @@ def copySrc (o : Opts) (doc : Value) : List Bytes → Res Value
 
 theorem applyOp_copy_badFrom {path : List Bytes} (hp : parsePointer op.path = some path)
     (hk : op.kind = .copy) (hf : parsePointer op.frm = none) :
-    applyOp o size acc doc op = .unspec := by
+    applyOp o size acc doc op = .fail .parentUnreachable := by
   simp only [applyOp, hp, hk, hf]
 
 theorem applyOp_copy_toRoot {frm : List Bytes} (hp : parsePointer op.path = some [])
@@ -141,7 +190,7 @@ theorem applyOp_test_cons {t : Bytes} {ts : List Bytes} (hp : parsePointer op.pa
 theorem applyOp_test_ok {d' : Value} {acc' : Nat} (hk : op.kind = .test)
     (h : applyOp o size acc doc op = .ok (d', acc')) : d' = doc ∧ acc' = acc := by
   cases hp : parsePointer op.path with
-  | none => rw [applyOp_badPointer hp] at h; cases h
+  | none => exact absurd h (applyOp_badPointer_ne_ok hp _)
   | some path =>
     cases path with
     | nil =>
